@@ -30,7 +30,7 @@ class C01(object):
 
     # ------------------------------------------------------------------ generation
     def gen(self, rng, tier):
-        n_valid, n_bad = (260, 70) if tier == 'quick' else (12000, 2500)
+        n_valid, n_bad = (260, 70) if tier == 'quick' else (72000, 15000)
         if tier == 'thorough':
             for c in self.exhaustive_small():
                 yield c
